@@ -26,9 +26,20 @@ from vf.ref import scale as R
 RULE = ("cases = (quantized_bits | quantized_linear, bits 2..8, integer 0..3 "
         "(<= non-sign bits), alpha 'auto'/'auto_po2', scale_axis None/int"
         "(/list for quantized_bits), elements_per_scale and min/max_po2_exponent "
-        "(quantized_bits+auto_po2), post_training_scale (quantized_bits), "
+        "(quantized_bits+auto_po2; a third of the bounded cases put a bound "
+        "at the value 0 with the natural exponent within +-3 of it), "
+        "post_training_scale (quantized_bits), "
         "use_ste, keep_negative/symmetric (quantized_linear), use_variables/"
-        "var_name) x (float32 tensor of rank "
+        "var_name, use_stochastic_rounding False/True) x learning phase 0/1 "
+        "(tf.random.set_seed(case seed) before every call) x optional "
+        "reconfiguration history in front of the checked call (a quarter of "
+        "the cases: 1..3 uses - call on another tensor / max / min / range / "
+        "str / get_config - then a change of a modifiable attribute: "
+        "symmetric flipped 0<->1 or there-and-back, alpha switched None/"
+        "'auto'/'auto_po2' -> the final alpha, _set_trainable_parameter(), or "
+        "the quantizer handed to a QDense/QConv2D/QConv1D/QDepthwiseConv2D "
+        "constructor; the oracle uses the configuration in force at the "
+        "checked call) x (float32 tensor of rank "
         "1..4, <= 96 (thorough: 256) elements, built group by group: normal / all-zero / single "
         "non-zero / constant / sign-aligned / 2^-6 and 2^+6 relative "
         "magnitude; non-zero channel maxima within 2^-21..2^20) drawn by "
@@ -38,8 +49,29 @@ RULE = ("cases = (quantized_bits | quantized_linear, bits 2..8, integer 0..3 "
         "is neither zero nor on the top code; distinct by hash of the case.")
 ASSUMPTIONS = [
     "checks run under TF_USE_LEGACY_KERAS=1 (tf_keras), float32, eager, "
-    "K.epsilon()==1e-7, channels_last; use_stochastic_rounding=False, "
+    "K.epsilon()==1e-7, channels_last; "
     "qnoise_factor=1 (default or explicit; other factors are C07's); "
+    "use_stochastic_rounding in {False, True} x learning phase in {0, 1}: "
+    "every clause of the statement is asserted in all four combinations "
+    "(stochastic rounding still has to give an in-range INTEGER code; it is "
+    "only in force for quantized_linear in phase 1 - quantized_bits' "
+    "data-derived-scale path rounds deterministically, and phase 0 is "
+    "documented to round to nearest); the distribution of the stochastic "
+    "codes is C08's. Under stochastic rounding the 'auto' top-code clause "
+    "also accepts the code next to the top code for a channel maximum whose "
+    "exact quotient x/unit is strictly inside the top code (float32 leaves it "
+    "a few ulp below an integer, probability ~1e-5), with one more step of "
+    "distance; 'auto_po2' equivariance is not asserted there (the refinement "
+    "sees random codes), 'auto' equivariance is (same TF seed for both calls)",
+    "reconfiguration histories use only what the library offers to callers: "
+    "attributes listed as modifiable in quantized_linear.__init__ (alpha, "
+    "symmetric), the switch every QKeras layer applies to an alpha=None "
+    "weight quantizer (alpha 'auto_po2', symmetric True), and for "
+    "quantized_bits the same layer switch plus 'auto' <-> 'auto_po2' (no "
+    "elements_per_scale / exponent bounds / frozen scale then); range() is "
+    "only called before the first call (afterwards the per-channel scale does "
+    "not broadcast with the code vector - unrelated to this property); an "
+    "exception anywhere in the history is reported as call_raises; "
     "quantized_bits use_ste in {True, False} (with qnoise_factor 1 the "
     "non-STE form (1-f)*x + f*xq is exactly xq), symmetric in {default,0,1} "
     "(forced to 1 by 'auto*'); use_variables/var_name in both classes "
@@ -56,9 +88,11 @@ ASSUMPTIONS = [
     "product, one of the straight-through sum)",
     "'auto' top-code clause asserted for channels whose maximum is >= "
     "2^bits * K.epsilon() (quantized_linear floors its scale at epsilon); "
-    "|y_max - x_max| <= u/2 + 2 ulp(x_max): quantized_linear(symmetric=0) "
-    "clips a positive maximum by exactly half a step (the float32 scale "
-    "carries a 2^-24 relative error that is multiplied by the top code)",
+    "|y_max - x_max| <= 2 ulp(x_max) (measured: 1 ulp over 12k tensors; the "
+    "float32 scale carries a 2^-24 relative error that is multiplied by the "
+    "top code), plus u/2 only for quantized_linear(keep_negative=True, "
+    "symmetric=0 at the time of the call), whose documented two's complement "
+    "range puts the maximum half a step beyond the top code",
     "frozen post_training_scale is positive and broadcastable; a power of two "
     "under alpha='auto_po2'",
     "equivariance: exact for 'auto'; for 'auto_po2' asserted only when a "
@@ -73,15 +107,20 @@ ASSUMPTIONS = [
     "tensor (case['prime']) use the same quantizer object: q.scale must "
     "describe the latest call",
 ]
-BUDGET_S = {"quick": 30, "thorough": 800}
+BUDGET_S = {"quick": 35, "thorough": 800}
 REQUIRED_LABELS = {
     t: ["quantized_bits", "quantized_linear", "alpha:auto", "alpha:auto_po2",
         "rank1", "rank2", "rank3", "rank4", "axis_int", "axis_list", "eps",
-        "po2_bounds", "bounds_active", "pts", "zero_group", "top_code_checked",
+        "po2_bounds", "po2_bound_zero", "bounds_active", "pts", "zero_group", "top_code_checked",
         "equiv_checked:auto", "equiv_checked:auto_po2", "clipped", "primed",
         "keep_negative=False", "symmetric=0", "use_ste=False",
         "use_ste=False+pts", "use_variables:quantized_bits",
-        "use_variables:quantized_linear"]
+        "use_variables:quantized_linear", "train_phase",
+        "stoch_train:quantized_linear", "stoch_infer:quantized_linear",
+        "stoch_train:quantized_bits", "reconfig:sym_flip",
+        "reconfig:alpha_switch", "reconfig:trainable", "reconfig:layer",
+        "reconfig:layer:quantized_linear", "reconfig:layer:quantized_bits",
+        "pre_use:call", "pre_use:bounds"]
     for t in ("quick", "thorough")}
 
 EPS = R.EPS
@@ -102,9 +141,17 @@ def fmt(cfg):
           "integer": kw.get("integer", 0), "bits": bits, "sym": sym}
 
 
-def _base(cfg):
+def stoch_train(cfg, phase):
+  """Stochastic rounding is in force: quantized_linear, option set, training
+  phase (quantized_bits' data-derived-scale path has no stochastic mode)."""
+  return bool(cfg["cls"] == "quantized_linear" and phase and
+              cfg["kw"].get("use_stochastic_rounding"))
+
+
+def _base(cfg, sigx=None):
   kw = cfg["kw"]
   sig = {"cls": cfg["cls"], "alpha": kw["alpha"]}
+  sig.update(sigx or {})
   if kw.get("post_training_scale") is not None:
     sig["frozen"] = True
   if kw.get("use_ste") is False:
@@ -115,7 +162,7 @@ def _base(cfg):
 
 
 def _labels(case):
-  cfg = case["cfg"]
+  cfg = G.c05_effective(case["cfg"], case.get("steps"))
   kw = cfg["kw"]
   labs = [cfg["cls"], "alpha:" + kw["alpha"], "rank%d" % len(case["shape"]),
           G.axis_kind(kw), "bits%d" % kw["bits"]]
@@ -123,6 +170,8 @@ def _labels(case):
     labs.append("eps")
   if kw.get("min_po2_exponent") is not None or kw.get("max_po2_exponent") is not None:
     labs.append("po2_bounds")
+    if kw.get("min_po2_exponent") == 0 or kw.get("max_po2_exponent") == 0:
+      labs.append("po2_bound_zero")
   if kw.get("post_training_scale") is not None:
     labs.append("pts")
   if kw.get("keep_negative") is False:
@@ -135,6 +184,21 @@ def _labels(case):
       labs.append("use_ste=False+pts")
   if kw.get("use_variables"):
     labs.append("use_variables:" + cfg["cls"])
+  phase = int(case.get("phase") or 0)
+  if phase:
+    labs.append("train_phase")
+  if kw.get("use_stochastic_rounding"):
+    labs.append("stoch_%s:%s" % ("train" if phase else "infer", cfg["cls"]))
+  steps = case.get("steps")
+  if steps:
+    for r in G.c05_routes(steps):
+      labs.append("reconfig:" + r)
+      labs.append("reconfig:%s:%s" % (r, cfg["cls"]))
+    ops = {s_["op"] for s_ in steps}
+    if "call" in ops:
+      labs.append("pre_use:call")
+    if ops & {"max", "min", "range"}:
+      labs.append("pre_use:bounds")
   return labs
 
 
@@ -154,12 +218,18 @@ def prime_tensor(x32):
           + np.float32(0.375)).astype(np.float32)
 
 
-def evaluate(cfg, shape, xs, st=None, q=None, prime=False):
-  """One call + every single-call clause. Returns (fails, obs|None)."""
+def evaluate(cfg, shape, xs, st=None, q=None, prime=False, phase=0, seed=None,
+             ctor=None, steps=None, sigx=None):
+  """One call + every single-call clause. Returns (fails, obs|None).
+
+  cfg is the configuration in force at the checked call; when the case has a
+  history, ctor holds the constructor arguments and steps the operations that
+  lead to cfg."""
   st = st if st is not None else {}
   fails = []
   kw = cfg["kw"]
-  base = _base(cfg)
+  base = _base(cfg, sigx)
+  sto = stoch_train(cfg, phase)
   f = fmt(cfg)
   alpha = kw["alpha"]
   frozen = kw.get("post_training_scale") is not None
@@ -167,10 +237,11 @@ def evaluate(cfg, shape, xs, st=None, q=None, prime=False):
   x = x32.astype(np.float64)
   try:
     if q is None:
-      q = G.build(cfg)
+      q = G.build(ctor if ctor is not None else cfg)
+      q = G.apply_steps(q, steps, prime_tensor(x32), phase, seed)
     if prime:
-      G.call(q, prime_tensor(x32))
-    y32 = G.call(q, x32)
+      G.call(q, prime_tensor(x32), phase, seed)
+    y32 = G.call(q, x32, phase, seed)
     s_raw = G.scale_of(q)
     qs_raw = None
     if cfg["cls"] == "quantized_linear":
@@ -294,7 +365,22 @@ def evaluate(cfg, shape, xs, st=None, q=None, prime=False):
       st["top_code_checked"] = True
     ismax = (ref == gm[gid]) & chk[gid]
     top_ok = np.where(x > 0, k == f["kmax"], k <= -f["kmax"])
-    near_ok = np.abs(y - x) <= 0.5 * Us + 2.0 * R.ulp32(x)
+    # only the two's complement range of quantized_linear (keep_negative,
+    # symmetric=0) is documented to sit half a step beyond the top code
+    half = 0.5 if (cfg["cls"] == "quantized_linear" and f["kn"] and
+                   not f["sym"]) else 0.0
+    slack = half * Us + 2.0 * R.ulp32(x)
+    if sto:
+      # stochastic rounding of a quotient that float32 leaves just below the
+      # top code may legitimately give the code underneath
+      v = x / Us
+      below = np.where(x > 0, (k == f["kmax"] - 1) & (v < f["kmax"]),
+                       (k == 1 - f["kmax"]) & (v > -f["kmax"]))
+      top_ok = top_ok | below
+      slack = slack + np.where(below, Us, 0.0)
+      if (ismax & below).any():
+        st["top_code_below"] = True
+    near_ok = np.abs(y - x) <= slack
     bad = ismax & ~(top_ok & near_ok)
     if bad.any():
       i = int(np.argmax(bad.reshape(-1)))
@@ -339,22 +425,40 @@ def _trace(cfg, shape, x):
 
 
 def oracle(ctx, case):
-  cfg, shape, xs = case["cfg"], case["shape"], case["xs"]
+  shape, xs = case["shape"], case["xs"]
+  steps = case.get("steps")
+  cfg = G.c05_effective(case["cfg"], steps)
   kw = cfg["kw"]
+  phase = int(case.get("phase") or 0)
+  seed = case.get("tf_seed")
+  sto = stoch_train(cfg, phase)
+  sigx = {}
+  if sto:
+    sigx["stoch"] = "train"
+  if steps:
+    sigx["reconfig"] = "+".join(G.c05_routes(steps))
   st = {}
-  fails, obs = evaluate(cfg, shape, xs, st, prime=bool(case.get("prime")))
+  fails, obs = evaluate(cfg, shape, xs, st, prime=bool(case.get("prime")),
+                        phase=phase, seed=seed, ctor=case["cfg"], steps=steps,
+                        sigx=sigx)
   labs = _labels(case)
   if case.get("prime"):
     labs.append("primed")
   meta = case.get("meta") or {}
   if meta.get("kind") == "equiv" and obs is not None and not fails:
-    base = _base(cfg)
+    base = _base(cfg, sigx)
     kk = int(meta["k"])
     x32 = np.asarray(xs, dtype=np.float32).reshape(shape)
     x2 = (x32 * np.float32(2.0 ** kk)).astype(np.float32)
-    f2, o2 = evaluate(cfg, shape, x2.reshape(-1).tolist(), {}, q=obs["q"])
+    f2, o2 = evaluate(cfg, shape, x2.reshape(-1).tolist(), {}, q=obs["q"],
+                      phase=phase, seed=seed, sigx=sigx)
     sound = True
-    if kw["alpha"] == "auto_po2":
+    if kw["alpha"] == "auto_po2" and sto:
+      # the refinement sees stochastic codes; the deterministic replay that
+      # decides whether exact equivariance is a sound expectation does not apply
+      sound = False
+      labs.append("equiv_skipped_stochastic")
+    elif kw["alpha"] == "auto_po2":
       t1, fl1 = _trace(cfg, shape, x32.astype(np.float64))
       t2, fl2 = _trace(cfg, shape, x2.astype(np.float64))
       sound = not (fl1 or fl2)
@@ -365,7 +469,8 @@ def oracle(ctx, case):
       for sc, sig, d in f2:
         fails.append((sc, dict(sig, follow_up="x*2^k"), d))
     elif not sound:
-      labs.append("equiv_skipped")
+      if not sto:
+        labs.append("equiv_skipped")
     else:
       fac = 2.0 ** kk
       # groups at the epsilon floor of quantized_linear are not covered by the
@@ -378,6 +483,8 @@ def oracle(ctx, case):
         above = np.ones_like(above)
       if above.all():
         labs.append("equiv_checked:" + kw["alpha"])
+        if sto:
+          labs.append("equiv_checked_stochastic")
       elif above.any():
         labs.append("equiv_partly_checked:" + kw["alpha"])
       else:
@@ -400,7 +507,7 @@ def oracle(ctx, case):
                       (kk, obs["y"].reshape(-1)[i], o2["y"].reshape(-1)[i],
                        x32.reshape(-1)[i])))
   for key in ("zero_group", "top_code_checked", "bounds_active", "clipped",
-              "outside_exact_regime", "float_scale"):
+              "outside_exact_regime", "float_scale", "top_code_below"):
     if st.get(key):
       labs.append(key)
   nontrivial = (len(shape) >= 2 and st.get("distinct_scales", 0) >= 2 and
@@ -429,6 +536,44 @@ def edge_cases():
                           "shape": shape, "xs": xs})
             cases.append({"cfg": {"cls": cls, "kw": dict(kw, use_variables=True)},
                           "shape": shape, "xs": xs, "prime": True})
+      # exponent bounds incl. the boundary value 0, active from either side
+      if cls == "quantized_bits" and a == "auto_po2":
+        for bits, integer in ((4, 1), (8, 0)):
+          for lo, hi in ((0, None), (None, 0), (0, 0), (-2, None), (None, -9),
+                         (-3, 0), (0, 4)):
+            kw = {"bits": bits, "integer": integer, "alpha": a}
+            if lo is not None:
+              kw["min_po2_exponent"] = lo
+            if hi is not None:
+              kw["max_po2_exponent"] = hi
+            # magnitudes stay below 2^23 grid units (see ASSUMPTIONS)
+            for shape, xs in (([6, 2], [v * 2.0 ** 8 for v in onez]),
+                              ([6, 2], onez),
+                              ([6, 2], [v * 2.0 ** -12 for v in onez])):
+              cases.append({"cfg": {"cls": cls, "kw": dict(kw)}, "shape": shape,
+                            "xs": xs})
+      # rounding mode x learning phase, reconfiguration histories
+      kw = {"bits": 4, "integer": 1, "alpha": a}
+      other = "auto" if a == "auto_po2" else "auto_po2"
+      for shape, xs in (([7, 2], sp), ([6, 2], onez)):
+        def add(kw_, **extra):
+          cases.append(dict({"cfg": {"cls": cls, "kw": kw_}, "shape": shape,
+                             "xs": xs}, **extra))
+        add(dict(kw), phase=1)
+        add(dict(kw, use_stochastic_rounding=True), tf_seed=1)
+        add(dict(kw, use_stochastic_rounding=True), tf_seed=2, phase=1)
+        add(dict(kw, alpha=other), steps=[
+            {"op": "call"}, {"op": "set", "attr": "alpha", "value": a}])
+        if cls == "quantized_linear":
+          for pre in ("max", "call"):
+            for fin in (0, 1):
+              add(dict(kw, symmetric=1 - fin), steps=[
+                  {"op": pre}, {"op": "set", "attr": "symmetric", "value": fin}])
+        if a == "auto_po2":
+          kn = dict(kw, alpha=None, symmetric=0)
+          add(dict(kn), steps=[{"op": "call"}, {"op": "trainable"}])
+          for kind in G.LAYER_KINDS:
+            add(dict(kn), steps=[{"op": "min"}, {"op": "layer", "kind": kind}])
   return cases
 
 
